@@ -1,15 +1,15 @@
 SPECIFICATION MCSpec
 CONSTANTS Variant = "ok"
- MCN = 3
- MCV = 2
+ MCN = 4
+ MCV = 1
  MCByz = 0
- TypesId = "d"
+ TypesId = "dr"
  Sequential = TRUE
  Focus = {1}
  MaxActive = 2
  MaxDup = 0
  MaxForge = 0
  MaxHold = 0
- AllowExpire = TRUE
+ AllowExpire = FALSE
 INVARIANTS TypeOK Exact Authentic ByzBound DbSenderBound DbGated NoBlock NoFailure Agreement
-CHECK_DEADLOCK FALSE
+CHECK_DEADLOCK TRUE
